@@ -89,6 +89,21 @@ class Engine:
         st2, d2 = _cvc5_second_opinion(s, self.timeout_ms * 3)
         if st2 == "unsat":
             return "discharged", ms, "cvc5", None
+        # relaxed refutation attempt: drop the quantified assumptions (fewer assumptions: `unsat` would still be a proof,
+        # `sat` gives a candidate model that is only believed if it replays on the real code)
+        qf = [a for a in assumptions if not _has_quantifier(a)]
+        if len(qf) < len(list(assumptions)):
+            s2 = z3.Solver()
+            s2.set("timeout", min(self.timeout_ms, 5000))
+            for a in qf:
+                s2.add(a)
+            s2.add(z3.Not(goal))
+            r2 = s2.check()
+            if r2 == z3.unsat:
+                return "discharged", ms, "", None
+            if r2 == z3.sat:
+                return "refuted", ms, "RELAXED: z3 timed out on the full query; model of the query without quantified axioms " \
+                                      "(believed only if it replays on the real code)", s2.model()
         return "undecided", ms, f"z3: {s.reason_unknown()}; cvc5: {d2}", None
 
     def record(self, name, status, ms, detail, model):
@@ -104,14 +119,30 @@ class Engine:
             r.model = model
 
     def feasible(self, assumptions):
+        """over-approximate path feasibility (quantified assumptions dropped: exploring an infeasible path is harmless)"""
         s = z3.Solver()
-        s.set("timeout", self.timeout_ms)
+        s.set("timeout", 3000)
         for a in assumptions:
-            s.add(a)
+            if not _has_quantifier(a):
+                s.add(a)
         t0 = time.time()
         r = s.check()
         self.solver_ms += (time.time() - t0) * 1000
         return r != z3.unsat
+
+
+def _has_quantifier(e):
+    seen = set()
+    todo = [e]
+    while todo:
+        t = todo.pop()
+        if t.get_id() in seen:
+            continue
+        seen.add(t.get_id())
+        if z3.is_quantifier(t):
+            return True
+        todo.extend(t.children())
+    return False
 
 
 def _cvc5_second_opinion(solver, timeout_ms):
@@ -143,6 +174,7 @@ class Path:
         self.counter = {}
         self.trace = []  # effect trace (theories/trace)
         self.ghost = {}
+        self.quiet = 0  # >0: pure re-evaluation of an already checked expression (no obligations, no assumptions)
 
     def fresh(self, base, sort=None):
         k = self.counter.get(base, 0)
@@ -157,6 +189,8 @@ class Path:
         return z3.Const(nm, sort)
 
     def assume(self, e):
+        if self.quiet:
+            return
         if isinstance(e, bool):
             if not e:
                 raise PathEnd()
@@ -170,6 +204,8 @@ class Path:
             return True
         if z3.is_false(cond):
             return False
+        if self.quiet:
+            raise Undecided("branch inside a quiet (pure) re-evaluation")
         k = len(self.decisions)
         if k < len(self.prefix):
             d = self.prefix[k]
@@ -188,6 +224,8 @@ class Path:
         return d
 
     def oblige(self, name, goal, extra=()):
+        if self.quiet:
+            return True
         if isinstance(goal, bool):
             goal = z3.BoolVal(goal)
         st, ms, detail, model = self.engine.check(self.pc + list(extra), goal)
@@ -238,12 +276,33 @@ class Interp:
         self.writes = []  # frame log: (owner tag, description)
         self.task_name = ""
         self.call_depth = 0
+        self.choice = None  # relational contracts: the body's actual choices (verification task) or None (call site)
+        self.claim_label = ""
         from . import models
 
         self.models = models
 
+    # ----------------------------------------------------------------- relational contracts
+    def claim(self, name, formula):
+        """characterisation of a free choice: proved in the function's own verification task, assumed at call sites"""
+        if self.choice is not None:
+            self.path.oblige(f"{self.claim_label}:choice.{name}", formula)
+        self.path.assume(formula)
+
+    def claim_forall(self, name, lo, hi, body):
+        """forall k in [lo,hi): body(k)   - skolem obligation in the task, quantified assumption at call sites"""
+        if self.choice is not None:
+            sk = self.path.fresh("csk")
+            self.path.oblige(f"{self.claim_label}:choice.{name}", body(sk), extra=[sk >= lo, sk < hi])
+        c = self.path.counter.get("cq", 0)
+        self.path.counter["cq"] = c + 1
+        kq = z3.Int(f"cq!{c}")
+        self.path.assume(z3.ForAll([kq], z3.Implies(z3.And(kq >= lo, kq < hi), body(kq))))
+
     # ----------------------------------------------------------------- naming of obligations
     def ob_name(self, kind):
+        if self.path.quiet:
+            return "quiet"
         fr = self.stack[-1]
         k = fr.counters.get(kind, 0) + 1
         fr.counters[kind] = k
